@@ -479,6 +479,17 @@ func c02Judge(fail func(string, ...any), o *c02Original, mc Certificate, pool fu
 				fail("a certificate with a changed identity verifies at t=%d\n  original identity %+v\n  mutant identity   %+v\n%s", at-cgT0, o.ident, mi, desc)
 			}
 		}
+		// A trust pool is long-lived: the verdict must not depend on what the pool verified before.
+		// The same question to a pool that has just accepted the genuine certificate (a peer that
+		// handshook honestly, then an impostor presenting altered bytes) gets the same answer.
+		warm := pool()
+		if _, werr := warm.VerifyCertificate(time.Unix(o.t, 0), o.cert); werr != nil {
+			fail("harness: the original does not verify against its own pool: %v\n%s", werr, desc)
+		}
+		_, err2 := warm.VerifyCertificate(time.Unix(at, 0), mc)
+		if (err == nil) != (err2 == nil) {
+			fail("verdict at t=%d depends on the pool's history: fresh pool says %v, a pool that verified the original first says %v\n  original identity %+v\n  mutant identity   %+v\n%s", at-cgT0, err, err2, o.ident, mi, desc)
+		}
 	}
 	if !sameIdent {
 		return "identity-changed:rejected"
